@@ -127,6 +127,23 @@ def wrap(v, t):
     return v
 
 
+class StructVal:
+    """A struct rvalue (returned, passed or assigned by value): {byte offset: member value}."""
+    __slots__ = ("fields", "size")
+
+    def __init__(self, fields, size):
+        self.fields, self.size = dict(fields), size
+
+    def __repr__(self):
+        return "Struct%r" % (self.fields,)
+
+    def __eq__(self, o):
+        return isinstance(o, StructVal) and o.fields == self.fields
+
+    def __hash__(self):
+        return hash(tuple(sorted((k, repr(v)) for k, v in self.fields.items())))
+
+
 class Access:
     __slots__ = ("base", "lo", "hi", "kind", "node", "masked")
 
@@ -264,10 +281,16 @@ class Interp:
                 else:
                     env[d["d"]] = U
                 rsz = RECORD_SIZES.get(clean_type(d.get("t") or "").replace("struct ", ""))
-                if rsz and self.heap is not None and (init is None or init.strip().k == "InitListExpr"):
+                if rsz and self.heap is not None:
                     # a struct object on the stack: its members live in the tracked heap
-                    self._objs = getattr(self, "_objs", 0) + 1
-                    env[("obj", d["d"])] = Ptr("local%d:%s" % (self._objs, d["n"]), 0, rsz)
+                    obj = self.new_object(d["n"], rsz)
+                    env[("obj", d["d"])] = obj
+                    iv = env.get(d["d"])
+                    if init is not None and init.strip().k == "InitListExpr":
+                        iv = self.init_list(init.strip(), d.get("t"), env, fn, depth)
+                    if isinstance(iv, StructVal):
+                        self.store_struct(obj, iv)
+                    env[d["d"]] = U
                 if d["d"] in self.forced and fn is self.fn:
                     env[d["d"]] = self.forced[d["d"]]
         elif k == "IfStmt":
@@ -458,8 +481,56 @@ class Interp:
             return True
         return self.decide(e)
 
+    # ---- struct objects and struct values
+    def new_object(self, name, size):
+        self._objs = getattr(self, "_objs", 0) + 1
+        return Ptr("local%d:%s" % (self._objs, name), 0, size)
+
+    def snapshot(self, p, size):
+        if self.heap is None or not isinstance(p, Ptr) or not isinstance(p.off, int):
+            return U
+        return StructVal({o - p.off: v for (b, o), v in self.heap.items()
+                          if b == p.base and isinstance(o, int) and p.off <= o < p.off + size}, size)
+
+    def store_struct(self, p, sv):
+        if self.heap is None or not isinstance(p, Ptr) or not isinstance(p.off, int):
+            return
+        for k_ in [k_ for k_ in self.heap if k_[0] == p.base and isinstance(k_[1], int) and p.off <= k_[1] < p.off + sv.size]:
+            del self.heap[k_]
+        for o, v in sv.fields.items():
+            self.heap[(p.base, p.off + o)] = v
+
+    def record_of(self, t):
+        name = clean_type(t or "").replace("struct ", "").replace("const ", "").strip()
+        for cand in (name, name[:-2] if name.endswith("_t") else None):
+            if cand and cand in self.P.records:
+                return self.P.records[cand]
+        return None
+
+    def init_list(self, il, t, env, fn, depth):
+        """{a, b, ...} for a struct type: members in declaration order (missing ones are zero)."""
+        rec = self.record_of(t)
+        if rec is None:
+            return U
+        fields = [f for f in rec["fields"] if f.get("off") is not None and f["n"]]
+        out = {f["off"] // 8: 0 for f in fields if TYPE_SIZES.get(clean_type(f["t"])) or "*" in f["t"]}
+        vals = [x for x in il.c if x is not None]
+        for f, x in zip(fields, vals):
+            if x.k in ("ImplicitValueInitExpr",):
+                continue
+            if x.k == "DesignatedInitExpr":
+                return U
+            v = self.rv(self.ev(x, env, fn, depth), env)
+            out[f["off"] // 8] = wrap(v, f["t"]) if isinstance(v, int) else v
+        return StructVal(out, rec["size"])
+
     def lval_set(self, node, val, env, fn, depth):
         n = node.strip()
+        if isinstance(val, StructVal):
+            p, _sz = self.addr(n, env, fn, depth)
+            if p is not None:
+                self.store_struct(p, val)
+            return
         if n.k == "DeclRefExpr" and n.get("d") is not None and n.get("dk") in ("local", "param"):
             env[n.get("d")] = wrap(val, n.t) if isinstance(val, int) else val
             if n.get("dk") == "local" and n.get("d") in self.forced and fn is self.fn:
@@ -589,8 +660,17 @@ class Interp:
             return self.rv(self.ev(e.c[2], env, fn, depth), env)
         if k == "CallExpr":
             return self.call(e, env, fn, depth)
+        if k == "MemberExpr" and not e.get("arrow") and e.c and e.c[0] is not None and \
+                e.c[0].strip().k in ("CallExpr", "CompoundLiteralExpr", "ConditionalOperator"):
+            b = self.rv(self.ev(e.c[0], env, fn, depth), env)      # member of a struct rvalue
+            off = self.field_offset(e)
+            return b.fields.get(off, U) if isinstance(b, StructVal) and off is not None else U
         if k == "ArraySubscriptExpr" or k == "MemberExpr":
             return ("MEM", e)
+        if k == "CompoundLiteralExpr" and e.c and e.c[0] is not None and e.c[0].strip().k == "InitListExpr" and self.heap is not None:
+            return self.init_list(e.c[0].strip(), e.t, env, fn, depth)
+        if k == "InitListExpr" and self.heap is not None and self.record_of(e.t) is not None:
+            return self.init_list(e, e.t, env, fn, depth)
         if k == "UnaryExprOrTypeTraitExpr":
             return e.cv if e.cv is not None else U
         if k in ("StmtExpr",):
@@ -607,8 +687,18 @@ class Interp:
     def load(self, lnode, v, env, fn, depth):
         """Value of an lvalue expression (LValueToRValue)."""
         if isinstance(v, tuple) and v and v[0] == "LV":
+            if ("obj", v[1]) in env:
+                o = env[("obj", v[1])]
+                return self.snapshot(o, o.esz)
             return env.get(v[1], U)
         n = lnode.strip()
+        if self.heap is not None and n.k in ("MemberExpr", "ArraySubscriptExpr") or (
+                self.heap is not None and n.k == "UnaryOperator" and n.op == "*"):
+            rsz = RECORD_SIZES.get(clean_type(n.t or "").replace("struct ", "").replace("const ", "").strip())
+            if rsz:
+                p, _s = self.addr(n, env, fn, depth)
+                if p is not None:
+                    return self.snapshot(p, rsz)
         if n.k == "UnaryOperator" and n.op == "*" and not _has_effects(n.c[0]):
             pv = self.rv(self.ev(n.c[0], env, fn, depth), env)
             if isinstance(pv, tuple) and pv and pv[0] == "ADDR" and len(pv) > 3:
@@ -887,6 +977,10 @@ class Interp:
             cenv = {}
             for p, v in zip(callee.params, args):
                 cenv[p["d"]] = v
+                if isinstance(v, StructVal) and self.heap is not None:
+                    cenv[("obj", p["d"])] = self.new_object(p["n"], v.size)     # a struct passed by value
+                    self.store_struct(cenv[("obj", p["d"])], v)
+                    cenv[p["d"]] = U
             try:
                 self.stmt(callee.body, cenv, callee, depth + 1)
             except _Return as r:
